@@ -6,7 +6,7 @@ SD.b  for every creator that assigns X->deep = E: every function installed into 
 SD.5  no allocator call / VLA outside mem.c and blob.c (shared with C15 R15.1).
 Absence of every out-of-bounds access for all inputs is a value statement and is declined."""
 import itertools, re, re
-from . import ir, sd
+from . import ir, sd, vp
 from .ir import AnalysisBroken, strip, walk, show, access_path
 from .sd import Undecided
 from .report import Result, COMMON_ASSUMPTIONS
@@ -371,6 +371,25 @@ def check_state_within_keep(prog, res, ne, sizes):
     res.coverage["state_families_not_decided"] = und
 
 
+def _subst_locals(e, syms, depth=0):
+    """copy of e with single-assignment helper locals (actual_size = blobActualSize(size)) replaced by their value"""
+    if not isinstance(e, dict):
+        return e
+    if e.get("k") == "Ref" and e.get("rk") == "local" and e.get("id") in syms and depth < 10:
+        d = strip(syms[e["id"]])
+        if d.get("k") not in ("Call", "Cond"):
+            return _subst_locals(d, syms, depth + 1)
+    out = {}
+    for k_, v in e.items():
+        if isinstance(v, dict):
+            out[k_] = _subst_locals(v, syms, depth)
+        elif isinstance(v, list):
+            out[k_] = [_subst_locals(x, syms, depth) for x in v]
+        else:
+            out[k_] = v
+    return out
+
+
 def check_blob_sizes(prog, res, ne):
     """SD.c: the block blob.c obtains from the allocator covers the size header plus the requested payload"""
     for fname, alloc, size_idx in (("blobCreate", "memAlloc", 0), ("blobResize", "memRealloc", 1)):
@@ -380,7 +399,7 @@ def check_blob_sizes(prog, res, ne):
         calls = [c for c in ir.calls(f.body) if c.get("callee") == alloc]
         if len(calls) != 1:
             raise AnalysisBroken("%s: expected one %s call" % (fname, alloc))
-        aexpr = calls[0]["a"][-1]
+        aexpr = _subst_locals(calls[0]["a"][-1], vp.single_assign_syms(f))
         size_p = f.params[size_idx]
         # the pointer handed back to the caller: offset of the payload from the allocated block
         ret_off = None
